@@ -42,6 +42,10 @@ SCOPE_PROGS = [
     'lambda: (yield)\nl2 = lambda *a, **k: [a for a in k if (q := a)]\n',
     'import a.b.c\nimport x.y as xy, z.w.v.u\nfrom p.q.r import s\ndef f():\n    import m.n.o\n    return a, xy, z, s, m\n',
     'def f():\n    g = lambda p=pdef, *, k1=kdef1, k2=kdef2, **kw: (p, k1, k2, free)\n    h = lambda *, only=konly: only\n    return g, h\n',
+    # the name `_`: a real binding as an exception capture, an assignment target, a loop variable, a parameter; the wildcard (no binding) in patterns
+    'def f(v):\n    try:\n        g()\n    except E1 as _:\n        h(_)\n    except E2 as _e:\n        pass\n    match v:\n        case [_, *_]:\n            pass\n        case {"k": _, **_r}:\n            pass\n        case C(_, a=_) as _w:\n            pass\n    return _\n',
+    'def f(v):\n    match v:\n        case [_, *_] | (_ as _):\n            pass\n' if False else 'def f(v):\n    for _ in v:\n        pass\n    with v as _:\n        pass\n    return [_ for _ in v], (lambda _: _), _\n',
+    'try:\n    pass\nexcept* E as _:\n    use(_)\n',
     'class C(B1, B2, metaclass=Meta, **kwbase):\n    def m(self, a: Ann1 = Dflt1, /, b=Dflt2, *va: Ann2, c: Ann3 = Dflt3, **kw: Ann4) -> Ret: return a\n',
 ]
 
